@@ -1104,11 +1104,31 @@ def _wrap_under_conn(v, under_conn=False):
     return False
 
 
+def _spec_wrap_under_conn(v, under=False):
+    """Same for the spec-level Q form ({'op': 'and'|'or'|'not'|'leaf', ...})."""
+    if isinstance(v, dict):
+        op = v.get('op')
+        if op in ('and', 'or', 'xor') and 'children' in v:
+            if len(v['children']) == 1 and under:
+                return True
+            multi = len(v['children']) >= 2
+            return any(_spec_wrap_under_conn(c, multi) for c in v['children'])
+        if op == 'not' and 'child' in v:
+            return _spec_wrap_under_conn(v['child'], False)
+        if op == 'leaf':
+            return False
+        return any(_spec_wrap_under_conn(x, False) for x in v.values())
+    if isinstance(v, (list, tuple)):
+        return any(_spec_wrap_under_conn(x, under) for x in v)
+    return False
+
+
 @explainer
 def wrapper_q_squashed_on_load(case, outcome, atoms):
     """Operator syntax cannot re-create a single-child wrapper Q that sits
     directly inside a connector group: Q._combine squashes it on load."""
-    if not _wrap_under_conn(case.get('muts') or []):
+    if not (_wrap_under_conn(case.get('muts') or []) or
+            _spec_wrap_under_conn([case.get('spec'), case.get('seq')])):
         return atoms
     return [a for a in atoms if a[0] not in ('str_differs', 'value_differs',
                                              'simulated_signature_differs', 'sql_differs')]
